@@ -133,3 +133,43 @@ Proof.
     pose proof (H O b ltac:(lia) F) as Hc. revert F Hc. vm_compute. intros F Hc. inversion F; subst b. discriminate.
   - vm_compute. split; reflexivity.
 Qed.
+
+(** * a scored comparison: the candidate a5-a6 (a5 endorsed in SP block 22) against the active chain a1-a2 with ki = 1.
+    Instance 1 went through a fork, activated a5 once (a5 is cached fully valid, a6 is not) and came back; instance 2 is
+    fresh (nothing of the branch validated).  Same active chain, same candidate chain, no failed mark; the validated part
+    of the branch differs (the case handled by the re-validation theorem).  Both answer -100 and activate a6. *)
+Definition vx_blocks : list op :=
+  [ OConnect 3 0 false [[AddRef 4 1]; [AddRef 7 4; AddEnd 3 3 7]];
+    OConnect 6 3 false [[AddRef 10 7]];
+    OConnect 15 3 false [[AddRef 22 7; AddEnd 15 15 22]];
+    OConnect 18 15 false [[AddRef 25 22]] ].
+Definition vx_ops1 : list op :=
+  vx_blocks ++ [OConnect 9 0 false [[AddRef 4 1]; [AddRef 13 4]]; OSetState 6; OSetState 9; OSetState 15; OSetState 6].
+Definition vx_ops2 : list op := vx_blocks ++ [OSetState 6].
+Definition vx_sc := score_of rf_cfg 1 false (fun _ => 0) ex_spv ex_times.
+Definition vx_cr := crossed_of 1.
+
+Example verdict_scored_example :
+  reachable ex_base (st_of vx_ops1) /\ reachable ex_base (st_of vx_ops2) /\ fresh_history vx_ops2 /\
+  active_chain (st_of vx_ops1) = active_chain (st_of vx_ops2) /\
+  chain_of (st_of vx_ops1) 18 = chain_of (st_of vx_ops2) 18 /\
+  clean_all (st_of vx_ops1) 18 /\ clean_all (st_of vx_ops2) 18 /\
+  option_map (b_lvl _) (bfind (blocks _ _ (st_of vx_ops1)) 15) = Some L_FULL /\
+  option_map (b_lvl _) (bfind (blocks _ _ (st_of vx_ops2)) 15) = Some L_CONNECTED /\
+  match c_compare vx_sc vx_cr (st_of vx_ops1) (Some 18%N), c_compare vx_sc vx_cr (st_of vx_ops2) (Some 18%N) with
+  | Ok (t1, r1), Ok (t2, r2) => r1 = -100 /\ r2 = -100 /\ tip _ _ t1 = 18%N /\ tip _ _ t2 = 18%N
+  | _, _ => False
+  end.
+Proof.
+  assert (R1 : reachable ex_base (st_of vx_ops1)) by (exists 0%N, 0, vx_ops1; vm_compute; reflexivity).
+  assert (R2 : reachable ex_base (st_of vx_ops2)) by (exists 0%N, 0, vx_ops2; vm_compute; reflexivity).
+  split; [exact R1|]. split; [exact R2|].
+  split; [exists vx_blocks, 6%N; split; [reflexivity|cbn; exact I]|].
+  split; [vm_compute; reflexivity|]. split; [vm_compute; reflexivity|].
+  split; [|split].
+  - apply clean_all_3; [exact (proj1 (proj1 (reachable_good _ _ R1)))|vm_compute; reflexivity|].
+    intros k b Hk. destruct k as [|[|[|[|k]]]]; try lia; vm_compute; intros H; inversion H; reflexivity.
+  - apply clean_all_3; [exact (proj1 (proj1 (reachable_good _ _ R2)))|vm_compute; reflexivity|].
+    intros k b Hk. destruct k as [|[|[|[|k]]]]; try lia; vm_compute; intros H; inversion H; reflexivity.
+  - split; [vm_compute; reflexivity|]. split; [vm_compute; reflexivity|]. vm_compute. repeat split; reflexivity.
+Qed.
